@@ -44,7 +44,29 @@ pub fn exec(rec: &Value, _st: &mut State) -> Value {
                 // intersection of a surface point's normal line with the curve: unit direction, parameters are distances
                 let spn = SurfacePoint2::new_normalize(origin, dir);
                 let sints: Vec<i64> = curve.intersection(&spn).iter().map(|t| q.q(*t / s, QT)).collect();
-                outs.push(json!({"ints": ints, "cints": cints, "span": sp, "cspan": csp, "max": mx, "far": far, "sints": sints}));
+                // the same line with a direction that went through a float rotation (quarter turn of the lattice vector (dy, -dx)):
+                // the components carry errors of ~1e-17 instead of exact zeros
+                let rd = engeom::geom2::Iso2::rotation(std::f64::consts::FRAC_PI_2) * Vector2::new(d[1] as f64, -(d[0] as f64));
+                let rray = Ray::new(origin, rd);
+                let rints: Vec<Vec<i64>> = polyline_intersections(&line, &rray).iter().map(|(t, i)| vec![q.q(*t / s, QT), *i as i64]).collect();
+                outs.push(json!({"ints": ints, "cints": cints, "span": sp, "cspan": csp, "max": mx, "far": far, "sints": sints, "rints": rints}));
+            }
+            json!({"c": outs, "finite": q.finite})
+        }
+        "shallow" => {
+            // lines nearly parallel to edges millions of units long: only the two intersection lists, parameter quantum `qt`
+            let pts: Vec<Point2> = gvvi(rec, "pts").iter().map(|p| Point2::new(p[0] as f64, p[1] as f64)).collect();
+            let line = Polyline::new(pts.clone(), None);
+            let curve = Curve2::from_points(&pts, 1.0e-6, false).expect("curve");
+            let o = gvi(rec, "o");
+            let origin = Point2::new(o[0] as f64, o[1] as f64);
+            let qt = gi(rec, "qt") as f64;
+            let mut outs = vec![];
+            for d in gvvi(rec, "dirs") {
+                let ray = Ray::new(origin, Vector2::new(d[0] as f64, d[1] as f64));
+                let ints: Vec<Vec<i64>> = polyline_intersections(&line, &ray).iter().map(|(t, i)| vec![q.q(*t, qt), *i as i64]).collect();
+                let cints: Vec<Vec<i64>> = curve.ray_intersections(&ray).iter().map(|(t, i)| vec![q.q(*t, qt), *i as i64]).collect();
+                outs.push(json!({"ints": ints, "cints": cints}));
             }
             json!({"c": outs, "finite": q.finite})
         }
